@@ -66,6 +66,8 @@ func (g *G) genFlow(idx int, f *FlowSpec) {
 		}
 	}
 	g.resultNames = nil
+	// some flows are written to be started from another flow (start_session / enter_flow): they read @parent a lot
+	g.parentFlavor = t.Chance("parent_flavor", 1, 6)
 	// the idiom flows migrated from the legacy editor are full of: call a webhook and save it as a result,
 	// wait for a reply, then read @webhook / @legacy_extra (recreated from the result when the session is reloaded)
 	g.idiom = g.P.AllowWebhookAfter && nn >= 3 && f.Type != "messaging_background" && t.Chance("legacy_webhook_idiom", 1, 4)
@@ -136,12 +138,14 @@ func (g *G) marker(item, lang, prop string, idx int) string {
 	return "⟦" + id + "⟧"
 }
 
-// localize draws, for each non-base language of the flow's world, a translation state for
+// localize draws, for each language of the flow's world, a translation state for
 // (item, prop) with base values vals, and stores it in loc.
 func (g *G) localize(f *FlowSpec, loc J, item, prop string, vals []string, mk func(lang string, i int) string) {
 	t := g.T
 	for _, lang := range g.S.Langs {
-		if lang == f.Lang {
+		if lang == f.Lang && !t.Chance("stale_base_translation", 1, 8) {
+			// (sometimes the localization keeps entries under the flow's own language, left over
+			// from a base-language switch: the base text must still win)
 			continue
 		}
 		// 0 absent (simplest) / present / [] / [""] / different length
